@@ -244,6 +244,8 @@ var mpuModel = porcupine.Model{
 			return out.OK && out.Parts == st.parts, st
 		case "complete-refused": // by a disk error: no effect on the upload
 			return true, st
+		case "listed": // ListMultipartUploads shows exactly the pending uploads
+			return out.OK == !st.gone, st
 		default: // complete
 			if st.gone {
 				return !out.OK, st
@@ -927,6 +929,37 @@ func (r *Run) execLin(ci, oi int, op *Op) {
 			r.probe("abort succeeded in a concurrent run")
 		}
 		r.logf("c%d#%d abort up=%s [%d,%d] -> %s", ci, oi, u.ID, call, ret, resp.String())
+	case "mpu-lsuploads":
+		// ListMultipartUploads: for every upload of the run one observation,
+		// "is pending" or "is not"
+		bkt := op.B
+		call := h.tick()
+		resp := r.send(&simnet.Request{Method: "GET", Target: target(bkt, "", url.Values{"uploads": {""}})}, op.Faults, r.frag(op))
+		ret := h.tick()
+		r.noPanic(resp, "list multipart uploads")
+		var x xUploadsResult
+		if resp.Status != 200 || xml.Unmarshal(resp.Body, &x) != nil {
+			r.linFail("lin.mpu", "ListMultipartUploads fails", "200", resp.String()+" "+resp.Msg)
+		}
+		shown := map[string]string{}
+		for _, u := range x.Uploads {
+			if _, dup := shown[u.UploadID]; dup {
+				r.linFail("lin.mpu", "ListMultipartUploads shows an upload twice", "once", u.UploadID)
+			}
+			shown[u.UploadID] = u.Key
+		}
+		for _, u := range r.uploads {
+			if u.Bucket != bkt {
+				continue
+			}
+			k, ok := shown[u.ID]
+			if ok && k != u.Key {
+				r.linFail("lin.mpu", "ListMultipartUploads shows an upload under another key than it was initiated for", u.Key, k)
+			}
+			h.add("u:"+u.ID, ci, call, ret, mpuIn{Kind: "listed"}, mpuOut{OK: ok}, fmt.Sprintf("list-uploads shows it: %v", ok))
+		}
+		r.probe("upload listing in a concurrent run")
+		r.logf("c%d#%d lsuploads [%d,%d] -> %d uploads", ci, oi, call, ret, len(x.Uploads))
 	case "mpu-lsparts":
 		u := r.upload(op.Up)
 		if u == nil {
